@@ -590,6 +590,11 @@ def _graph_rows(name):
         return k, induced(2, [True] * 16)
     if name == "mixed-2":
         return k, induced(2, gfp(2, [1, 1, 0, 1, 1, 0, 1, 0, 0, 1, 1, 1, 1, 0, 1, 0], 1))
+    if name in ("sparse-2", "loop-2"):
+        m = [0] * 16
+        for v in ((1, 6, 8, 3, 12) if name == "sparse-2" else (1, 6, 8, 10, 15)):
+            m[v] = 1
+        return k, induced(2, gfp(2, m, 1))
     if name.startswith("no-repeat-"):
         m = []
         for v in range(N):
@@ -632,7 +637,10 @@ def warm_calls(k, mode):
 def k_repair(p):
     """C08 / C09 / C10 on a concrete input."""
     import dsw
-    k, rows = _graph_rows(p["graph"])
+    if p.get("rows") is not None:
+        k, rows = int(p["k"]), p["rows"]            # the harness sends the graph itself; the name is informative
+    else:
+        k, rows = _graph_rows(p["graph"])
     acc = np.array(rows, dtype=int)
     s, start = p["strand"], int(p["start"])
     chk = p.get("vt_check")
